@@ -349,16 +349,28 @@ class MultiValue(Object):
     def attr_list(self, ctx):
         # type: (EvalCtx) -> AttrList
         result: set[str] = set()
-        for v in self.get_rvalues(ctx):
-            result.update(v.attr_list(ctx))
+        if getattr(self, '_busy', False):
+            return result  # self.x = self.x: one of the values is this one
+        self._busy = True
+        try:
+            for v in self.get_rvalues(ctx):
+                result.update(v.attr_list(ctx))
+        finally:
+            self._busy = False
         return result
 
     def get_attr(self, ctx, name):
         # type: (EvalCtx, str) -> Object | Name | None
-        for v in self.get_rvalues(ctx):
-            result = v.get_attr(ctx, name)
-            if result is not None:
-                return result
+        if getattr(self, '_busy', False):
+            return None
+        self._busy = True
+        try:
+            for v in self.get_rvalues(ctx):
+                result = v.get_attr(ctx, name)
+                if result is not None:
+                    return result
+        finally:
+            self._busy = False
         return None
 
 
